@@ -111,6 +111,11 @@ def cases(tier, seed):
     for k in (2, 3, 4):
         cs.append(dict(kind='fft2d', nf=2**k, nc=2 ** (k - 1), seed=int(rng.integers(0, 2**31)), _cost=2))
     for i in range(6 if tier == 'quick' else 400):
+        for _ in range(2):
+            dim_ = int(rng.integers(1, 3))
+            k_ = int(rng.integers(3, 6 if dim_ == 1 else 5))
+            cs.append(dict(kind='ncomp', nf=2**k_, nc=2 ** (k_ - 1), dim=dim_, ncomp=int(rng.integers(2, 4)), last=bool(rng.random() < 0.5), iorder=int(rng.choice([2, 4])), rorder=2,
+                           seed=int(rng.integers(0, 2**31)), _cost=4))
         cs.append(dict(kind='nocoarse', n=int(rng.integers(1, 9)), seed=int(rng.integers(0, 2**31)), _cost=1))
         cs.append(dict(kind='particles', n=int(rng.integers(1, 5)), seed=int(rng.integers(0, 2**31)), _cost=1))
     return cs
@@ -497,6 +502,59 @@ def run_fft2d(case, r):
     r.sample = dict(case={k: v for k, v in case.items() if not k.startswith('_')})
 
 
+def run_ncomp(case, r):
+    """problems with several solution components per grid point (attribute ncomp), stored on the first or on the last axis:
+    restriction and prolongation act on every component separately with the same Rspace / Pspace"""
+    from types import SimpleNamespace
+
+    from pySDC.implementations.datatype_classes.mesh import imex_mesh, mesh
+    from pySDC.implementations.transfer_classes.TransferMesh import mesh_to_mesh
+
+    nf, nc, dim, ncomp, last = case['nf'], case['nc'], case['dim'], case['ncomp'], case['last']
+    tag = f"ncomp/{nf}->{nc}/dim{dim}/ncomp{ncomp}/{'last' if last else 'first'}/i{case['iorder']}"
+    r.key = tag
+
+    def mk(n):
+        nv = n if dim == 1 else (n,) * dim
+        grid = (n,) * dim
+        shape = grid + (ncomp,) if last else (ncomp,) + grid
+        return SimpleNamespace(nvars=nv, dx=1.0 / n, ncomp=ncomp, init=(shape, None, np.dtype('float64')))
+
+    Pf, Pc = mk(nf), mk(nc)
+    T = mesh_to_mesh(Pf, Pc, dict(iorder=case['iorder'], rorder=case['rorder'], periodic=True, equidist_nested=bool(case['seed'] % 2)))
+    P, R = T.Pspace.toarray(), T.Rspace.toarray()
+    rng = np.random.default_rng(case['seed'])
+    take = (lambda a, i: a[..., i]) if last else (lambda a, i: a[i, ...])
+    for dt_cls in (mesh, imex_mesh):
+        Gd, Fd = dt_cls(Pc.init), dt_cls(Pf.init)
+        parts = (lambda d: [d]) if dt_cls is mesh else (lambda d: [d.impl, d.expl])
+        for part in parts(Gd) + parts(Fd):
+            part[:] = rng.standard_normal(np.asarray(part).shape)
+        up, dn = T.prolong(Gd), T.restrict(Fd)
+        r.check(type(up) is dt_cls and type(dn) is dt_cls, 'transfer-preserves-type', f'{tag}: {dt_cls.__name__} became {type(up).__name__}/{type(dn).__name__}')
+        for src, res, M_, nm, clause in ((Gd, up, P, 'prolong', 'prolong-is-Pspace'), (Fd, dn, R, 'restrict', 'restrict-is-Rspace')):
+            for ps, pr in zip(parts(src), parts(res)):
+                ps, pr = np.asarray(ps), np.asarray(pr)
+                for i in range(ncomp):
+                    want = M_ @ np.ascontiguousarray(take(ps, i)).reshape(-1)
+                    e = float(np.max(np.abs(np.ascontiguousarray(take(pr, i)).reshape(-1) - want)))
+                    r.check(e <= 1e-12 * max(1.0, float(np.max(np.abs(ps))) * float(np.max(np.sum(np.abs(M_), axis=1)))), clause,
+                            f'{tag}: {nm}({dt_cls.__name__}) component {i} is not the operator applied to component {i} of the argument ({e:.3e})')
+        # a constant per component stays that constant (periodic grids)
+        Cd = dt_cls(Pc.init)
+        for part in parts(Cd):
+            for i in range(ncomp):
+                take(part, i)[...] = float(i + 1)
+        upc = T.prolong(Cd)
+        for part in parts(upc):
+            for i in range(ncomp):
+                e = float(np.max(np.abs(np.asarray(take(part, i)) - (i + 1))))
+                r.check(e <= 1e-12 * ncomp, 'constants-preserved', f'{tag}: prolong({dt_cls.__name__}) mixes components: constant {i + 1} of component {i} off by {e:.3e}')
+    r.nontrivial = True
+    r.observe('ncomp', f"dim{dim}/{'last' if last else 'first'}/ncomp{ncomp}")
+    r.sample = dict(case={k: v for k, v in case.items() if not k.startswith('_')})
+
+
 def run_nocoarse(case, r):
     from pySDC.implementations.datatype_classes.mesh import imex_mesh, mesh
     from pySDC.implementations.transfer_classes.TransferMesh_NoCoarse import mesh_to_mesh as nocoarse
@@ -550,7 +608,7 @@ def run_particles(case, r):
 
 def run_case(case):
     r = Result(case)
-    dict(coll=run_coll, space=run_space, rect=run_rect, fft=run_fft, fft2d=run_fft2d, nocoarse=run_nocoarse, particles=run_particles)[case['kind']](case, r)
+    dict(coll=run_coll, space=run_space, rect=run_rect, fft=run_fft, fft2d=run_fft2d, ncomp=run_ncomp, nocoarse=run_nocoarse, particles=run_particles)[case['kind']](case, r)
     r.count('kind:' + case['kind'])
     return r
 
